@@ -22,7 +22,13 @@ for p in "${LIST[@]}"; do
   pkgs=$(git -C "$WT" diff --name-only | xargs -n1 dirname | sort -u | sed 's#^#./#; s#$#/#' | tr '\n' ' ')
   tests=FAIL
   if (cd "$WT" && timeout 900 go test -vet=off -count=1 $pkgs >/tmp/c18-mut-test.log 2>&1); then tests=pass; else
-    tests="FAIL($(grep -- '^--- FAIL\|^FAIL\|cannot\|undefined' /tmp/c18-mut-test.log | head -4 | tr '\n' ';'))"; fi
+    # packages whose tests fail on the unchanged tree too (consensus: panics in TestStateProposerSelection0;
+    # lib/p2p: TestNetAddressReachabilityTo needs DNS): compare the set of failing tests with the unchanged tree
+    fm=$(grep -- '^--- FAIL\|^panic:' /tmp/c18-mut-test.log | awk '{print $1,$2,$3}' | sort -u | tr '\n' ';')
+    (cd /repo && timeout 900 go test -vet=off -count=1 $pkgs >/tmp/c18-base-test.log 2>&1)
+    fb=$(grep -- '^--- FAIL\|^panic:' /tmp/c18-base-test.log | awk '{print $1,$2,$3}' | sort -u | tr '\n' ';')
+    if [ "$fm" = "$fb" ]; then tests="same failures as the unchanged tree ($fb)"; else tests="NEW FAILURES ($fm) vs unchanged ($fb)"; fi
+  fi
   out=$(VERIF_REPO="$WT" VERIF_NOEVIDENCE=1 timeout 900 /verif/run.sh C18 quick 2>/dev/null)
   rc=$?
   new=$(echo "$out" | sigs_of | comm -23 - "$BASE")
